@@ -457,7 +457,7 @@ func rulesC14(c *Ctx) {
 	verifierParam := v.ParamOfNamed(pA, "TokenVerifier")
 	optsParam := v.ParamOfNamed(pA, "RequireBearerTokenOptions")
 	fieldsVar := v.VarFromCall(c.Std("strings", "", "Fields"), 0)
-	c.Need(verifierParam != nil && optsParam != nil && fieldsVar != nil, "verify: verifier/options parameters and the split Authorization header")
+	c.Need(verifierParam != nil && optsParam != nil, "verify: verifier and options parameters")
 	var verifierV = -1
 	for _, w := range Writes(v.Body, false) {
 		if as, ok := w.Stmt.(*ast.AssignStmt); ok && len(as.Lhs) == 2 && len(as.Rhs) == 1 {
@@ -501,6 +501,9 @@ func rulesC14(c *Ctx) {
 	}
 
 	c.Rule("R-C14-1", "admission implies every check: with any single check failing, the admitting return is unreachable and only the cause's status is returned (reject table of R-C14-2 included)", func() {
+		// credential syntax: the header is split on white space and must consist of exactly two fields; any other
+		// parse (first space only, prefix match) admits or rejects different header shapes
+		c.Need(fieldsVar != nil, "verify: the Authorization header is split with strings.Fields (exactly two fields: scheme and token); another parse changes which header shapes count as a syntactically valid Bearer credential")
 		hdrOK := []leafMatcher{lenCmpObj(fieldsVar, token.NEQ, triFalse), cmpIs("ToLower", token.NEQ, triFalse)}
 		scenario("verify:malformed-authorization", anyOf(lenCmpObj(fieldsVar, token.NEQ, triTrue))(v), []int64{401}, "Authorization does not have exactly two fields")
 		scenario("verify:scheme-not-bearer", anyOf(lenCmpObj(fieldsVar, token.NEQ, triFalse), cmpIs("ToLower", token.NEQ, triTrue))(v), []int64{401}, "scheme is not Bearer")
@@ -571,6 +574,42 @@ func rulesC14(c *Ctx) {
 		c.Check(okScope, "verify:every-required-scope-checked", v, nil, "when options are given, every path from the verifier to admission runs the loop that returns 403 at the first required scope not granted")
 		// the admitted value is the verifier's
 		c.Check(v.ObjOf(admit.Results[0]) == tokVar && len(v.writesToVar(v.Body, tokVar, true)) == 1, "verify:admits-verifier-value", v, admit, "the TokenInfo handed on is exactly the verifier's result")
+		// … and unmodified: nothing is written through the verifier's pointer or through a copy of that pointer
+		aliases := map[types.Object]bool{tokVar: true}
+		for changed := true; changed; {
+			changed = false
+			for _, w := range Writes(v.Body, true) {
+				if o := v.ObjOf(w.LHS); o != nil && w.RHS != nil && aliases[v.ObjOf(w.RHS)] && !aliases[o] {
+					aliases[o] = true
+					changed = true
+				}
+			}
+		}
+		okRO := true
+		for _, w := range Writes(v.Body, true) {
+			x := ast.Unparen(w.LHS)
+			depth := 0
+			for {
+				if sel, ok := x.(*ast.SelectorExpr); ok {
+					x = ast.Unparen(sel.X)
+					depth++
+					continue
+				}
+				if st, ok := x.(*ast.StarExpr); ok {
+					x = ast.Unparen(st.X)
+					depth++
+					continue
+				}
+				break
+			}
+			if depth > 0 && aliases[v.ObjOf(x)] {
+				okRO = false
+				c.Fail("verify:verifier-value-modified", v, w.Stmt, "the TokenInfo returned by the verifier is written to (%s): the handler no longer sees exactly the verifier's value, and a verifier that caches its results sees the change on the next request", exprStr(w.LHS))
+			}
+		}
+		if okRO {
+			c.Ok("verify:verifier-value-not-modified", v, nil, "no assignment goes through the verifier's *TokenInfo or a copy of that pointer (%d aliases)", len(aliases))
+		}
 		// the token passed to the verifier is the second field
 		okTok := false
 		for _, call := range v.AllCalls(v.Body, false) {
